@@ -178,6 +178,8 @@ func runC15FaultPoints(rt *rapid.T, k *kindSpec) {
 				m.chain.SetHead(t.blk)
 				m.hist = append(m.hist, fmt.Sprintf("extend1[e%d]", ne))
 			}
+		case c == 5 && m.k.markDecrypted != nil && m.actMarkDecrypted(l):
+			// the key release path marked some stored rows decrypted
 		default:
 			syncs++
 			tipN := m.curTip().blk.Number()
